@@ -229,7 +229,7 @@ Proof. do 4 eexists. vm_compute. repeat split. Qed.
 (* ================================================================== *)
 
 Definition good_rec (r : list Z) : Prop :=
-  exists c k v, r = [c; k; v] /\ (c = 1 \/ c = 2 \/ c = 3).
+  exists c k v, r = [c; k; v] /\ (c = 1 \/ c = 2 \/ c = 3 \/ c = 4).
 
 (* [seen] lists the distinct keys put so far = the keys of the leaf level *)
 Definition seen_ok (seen : list Z) (t : btree) : Prop :=
@@ -269,13 +269,16 @@ Proof.
     apply andb_true_iff. split; apply Z.leb_le; [lia|]. rewrite P. lia.
 Qed.
 
+Lemma strip_prefix_app p r : strip_prefix p (p ++ r) = Some r.
+Proof. induction p as [|x p IH]; cbn; [reflexivity|]. now rewrite Z.eqb_refl. Qed.
+
 Lemma run_wire_holds recs : Forall good_rec recs -> forall t seen,
   inv t -> seen_ok seen t ->
   holds_wire recs (abs t) seen (run_wire recs t) = true.
 Proof.
   induction 1 as [|r recs (c & k & v & -> & Hc) _ IH]; intros t seen Hi Hs.
   - cbn [run_wire holds_wire]. rewrite (traverse_abs _ Hi). apply zlist_eqb_refl.
-  - cbn [run_wire holds_wire]. destruct Hc as [->|[->| ->]]; cbn [Z.eqb Pos.eqb].
+  - cbn [run_wire holds_wire]. destruct Hc as [->|[->|[->| ->]]]; cbn [Z.eqb Pos.eqb].
     + (* Put *)
       destruct (step_sim t (Put k v) Hi) as (t' & x & St & Hi' & Ss & K & _).
       cbn [step] in St. destruct (put t k v) as [t1| |]; try discriminate. injection St as -> _.
@@ -301,6 +304,9 @@ Proof.
       rewrite (get_abs _ _ Hi).
       destruct (sget k (abs t)) as [x|]; cbn [enc_get enc_state app];
         rewrite (state_ok_model _ _ Hi Hs), zlist_eqb_refl; cbn [andb]; apply IH; auto.
+    + (* Traverse *)
+      rewrite (traverse_abs _ Hi), strip_prefix_app. cbn [enc_state app].
+      rewrite (state_ok_model _ _ Hi Hs). cbn [andb]. apply IH; auto.
 Qed.
 
 Lemma checker_sound w :
@@ -312,9 +318,10 @@ Proof.
 Qed.
 
 (* the wire encoding of a history decodes into well-formed records *)
-Inductive wop : Type := WPut (k v : Z) | WRemove (k : Z) | WGet (k : Z).
+Inductive wop : Type := WPut (k v : Z) | WRemove (k : Z) | WGet (k : Z) | WTraverse.
 Definition enc_wop (o : wop) : list Z :=
-  match o with WPut k v => [1; k; v] | WRemove k => [2; k; 0] | WGet k => [3; k; 0] end.
+  match o with WPut k v => [1; k; v] | WRemove k => [2; k; 0] | WGet k => [3; k; 0]
+  | WTraverse => [4; 0; 0] end.
 
 Lemma chunks_enc ops : forall fuel,
   (length (flat_map enc_wop ops) <= fuel)%nat ->
@@ -333,5 +340,152 @@ Lemma checker_sound_enc ops :
 Proof.
   intros w. apply checker_sound. unfold chunks, w. rewrite chunks_enc by lia.
   apply Forall_forall. intros r Hr. apply in_map_iff in Hr. destruct Hr as (o & <- & _).
-  destruct o; do 3 eexists; (split; [reflexivity|]); auto.
+  destruct o; do 3 eexists; (split; [reflexivity|]); auto 6.
 Qed.
+
+(* ================================================================== *)
+(* (C) tombstones: Remove never changes the shape, a re-Put revives the
+       tombstone in place; the height bound at every moment of a history *)
+(* ================================================================== *)
+
+Lemma leaf_ins_present_keys lo hi l k v rm :
+  asc lo hi (keys l) -> In k (keys l) -> keys (fst (leaf_ins l k v rm)) = keys l.
+Proof.
+  revert lo; induction l as [|e l IH]; cbn; intros lo H Hin; [contradiction|].
+  destruct H as (A & B & C).
+  destruct (Z.eqb_spec k (ekey e)) as [E|E]; cbn; [reflexivity|].
+  destruct Hin as [Hin|Hin]; [congruence|].
+  pose proof (asc_Forall _ _ _ C) as F. rewrite Forall_forall in F.
+  specialize (F _ Hin). cbn in F.
+  destruct (Z.ltb_spec k (ekey e)) as [L|L]; [lia|].
+  specialize (IH _ C Hin). destruct (leaf_ins l k v rm) as [r a]; cbn in *. now rewrite IH.
+Qed.
+
+(* Remove only flips a flag: same height, same leaf slots (tombstones included) *)
+Lemma remove_shape t k t' :
+  inv t -> remove t k = Ok t' ->
+  height t' = height t /\ keys (all_entries t') = keys (all_entries t).
+Proof.
+  intros (W & _) R. destruct (remove_spec t k W) as (t1 & R1 & _ & Hh & P).
+  rewrite R in R1. injection R1 as <-. split; [exact Hh|].
+  destruct (search_leaf (all_entries t) k) as [v0|] eqn:S.
+  - destruct P as (E & _). rewrite E.
+    eapply leaf_ins_present_keys; [apply wf_tree_asc; exact W|eapply search_leaf_in; eauto].
+  - now subst t'.
+Qed.
+
+(* Put of a key that has a slot (live or tombstoned): no entry is added, no split *)
+Lemma put_present_shape t k v t' :
+  inv t -> In k (keys (all_entries t)) -> put t k v = Ok t' ->
+  height t' = height t /\ keys (all_entries t') = keys (all_entries t).
+Proof.
+  intros (W & _) Hin R. pose proof (wf_tree_asc _ W) as A.
+  destruct (put_spec t k v W) as (t1 & R1 & W1 & E & _ & Hh).
+  rewrite R in R1. injection R1 as <-.
+  assert (K : keys (all_entries t') = keys (all_entries t)).
+  { rewrite E. eapply leaf_ins_present_keys; eauto. }
+  split; [|exact K].
+  destruct Hh as [Hh|Hh]; [exact Hh|exfalso].
+  (* a taller tree of the same number of entries: look at how Put built it *)
+  unfold put, put_with in R. unfold wf_tree in W.
+  rewrite (search_spec _ _ _ _ _ k W) in R.
+  destruct (insert_spec _ _ _ _ _ k v false W I I) as (r' & u & Hi & _ & P2 & _).
+  rewrite Hi in R. rewrite (P2 Hin) in R. injection R as <-. cbn [height] in Hh. lia.
+Qed.
+
+(* Remove k ; Put k v  on any state of the invariant *)
+Lemma revive t k v :
+  inv t ->
+  exists t1 t2, remove t k = Ok t1 /\ put t1 k v = Ok t2 /\ inv t2 /\
+    get t1 k = Ok None /\ get t2 k = Ok (Some v) /\
+    (forall k', k' <> k -> get t2 k' = get t k') /\
+    size t1 = match get t k with Ok (Some _) => size t - 1 | _ => size t end /\
+    size t2 = match get t k with Ok (Some _) => size t | _ => size t + 1 end /\
+    (In k (keys (all_entries t)) ->
+       height t2 = height t /\ keys (all_entries t2) = keys (all_entries t)).
+Proof.
+  intros Hi.
+  destruct (remove_laws t k Hi) as (t1 & R1 & Hi1 & G1 & O1 & S1 & _).
+  destruct (put_laws t1 k v Hi1) as (t2 & R2 & Hi2 & G2 & O2 & S2).
+  exists t1, t2. repeat (split; [assumption|]).
+  split; [intros k' N; now rewrite (O2 k' N), (O1 k' N)|].
+  split; [exact S1|]. split.
+  - rewrite S2, G1, S1. destruct (get t k) as [[x|]| |]; lia.
+  - intros Hin. destruct (remove_shape _ _ _ Hi R1) as (H1 & K1).
+    rewrite <- K1 in Hin. destruct (put_present_shape _ _ _ _ Hi1 Hin R2) as (H2 & K2).
+    split; congruence.
+Qed.
+
+Lemma run_app a : forall b t t1 xs,
+  run a t = Ok (t1, xs) ->
+  run (a ++ b) t = match run b t1 with
+                   | Ok (t2, ys) => Ok (t2, xs ++ ys) | Err e => Err e | Panic => Panic end.
+Proof.
+  induction a as [|o a IH]; intros b t t1 xs R; cbn [run app] in *.
+  - injection R as <- <-. destruct (run b t) as [[t2 ys]| |]; reflexivity.
+  - destruct (step t o) as [[t' x]| |]; try discriminate.
+    destruct (run a t') as [[t'' xs']| |] eqn:Ra; try discriminate. injection R as <- <-.
+    rewrite (IH b t' t'' xs' Ra). destruct (run b t'') as [[t2 ys]| |]; reflexivity.
+Qed.
+
+Lemma distinct_keys_mono a b :
+  (distinct_keys_ever a <= distinct_keys_ever (a ++ b))%nat.
+Proof.
+  unfold distinct_keys_ever. apply NoDup_incl_length; [apply NoDup_nodup|].
+  intros y Hy. apply nodup_In in Hy. apply nodup_In. rewrite put_keys_app, in_app_iff. now left.
+Qed.
+
+(* "Height NEVER exceeds ...": at every moment of every history, against the
+   number of distinct keys put UP TO THAT MOMENT (hence also against the final N) *)
+Lemma height_every_moment ops1 ops2 t2 outs :
+  run (ops1 ++ ops2) new = Ok (t2, outs) ->
+  exists t1 outs1, run ops1 new = Ok (t1, outs1) /\
+    (2 ^ height t1 <= Nat.max 1 (distinct_keys_ever ops1))%nat /\
+    (distinct_keys_ever ops1 <= distinct_keys_ever (ops1 ++ ops2))%nat /\
+    (height t1 <= height t2)%nat.
+Proof.
+  intros R. destruct (refinement ops1) as (t1 & R1 & Hi1 & _).
+  exists t1, (snd (srun ops1 [])). split; [exact R1|].
+  split; [eapply height_log; eauto|]. split; [apply distinct_keys_mono|].
+  rewrite (run_app _ ops2 _ _ _ R1) in R.
+  destruct (run ops2 t1) as [[t2' ys]| |] eqn:R2; try discriminate. injection R as <- _.
+  eapply height_mono; eauto.
+Qed.
+
+(* the bound must count removed keys: four keys put and all removed leave an
+   EMPTY map (Size 0, nothing traversed) of Height 1 — 2^1 > max 1 0 *)
+Definition c10_all_removed_ops : list op :=
+  [Put 1 10; Put 2 20; Put 3 30; Put 4 40; Remove 1; Remove 2; Remove 3; Remove 4].
+Lemma height_counts_removed_keys :
+  exists t outs, run c10_all_removed_ops new = Ok (t, outs) /\
+    size t = 0 /\ is_empty t = true /\ traverse t = Ok [] /\ height t = 1%nat /\
+    distinct_keys_ever c10_all_removed_ops = 4%nat /\
+    length (all_entries t) = 4%nat.
+Proof. do 2 eexists. vm_compute. repeat split. Qed.
+
+(* the sharp bound 2^(Height+1) <= N is attained: 4 keys give Height 1, 8 keys
+   (in a suitable order) Height 2, 16 keys Height 3 *)
+Definition puts (ks : list Z) : list op := map (fun k => Put k k) ks.
+Lemma height_bound_attained :
+  (exists t outs, run (puts [1; 2; 3; 4]) new = Ok (t, outs) /\ height t = 1%nat) /\
+  (exists t outs, run (puts [8; 7; 6; 5; 4; 3; 2; 1]) new = Ok (t, outs) /\ height t = 2%nat) /\
+  (exists t outs, run (puts [16; 15; 14; 13; 12; 11; 10; 9; 8; 7; 6; 5; 4; 3; 2; 1]) new
+                  = Ok (t, outs) /\ height t = 3%nat).
+Proof. repeat split; do 2 eexists; vm_compute; repeat split. Qed.
+
+(* a removed key in an "internal position": after Put 1..4 the root is [1|3] and
+   3 is both the separator of the root's second entry and the first entry of
+   the right leaf.  Remove 3 tombstones the leaf entry only; the separator stays,
+   Get 3 descends to the right leaf and reports absence, the neighbours are
+   unaffected, Traverse skips it, and Put 3 revives the slot in place. *)
+Lemma removed_separator_example :
+  exists t outs e c e0 t',
+    run [Put 1 10; Put 2 20; Put 3 30; Put 4 40; Remove 3] new = Ok (t, outs) /\
+    nth_error (entries (root t)) 1 = Some e /\ ekey e = 3 /\ enext e = Some c /\
+    hd_error (entries c) = Some e0 /\ ekey e0 = 3 /\ erem e0 = true /\
+    get t 3 = Ok None /\ get t 4 = Ok (Some 40) /\ get t 2 = Ok (Some 20) /\
+    traverse t = Ok [(1, 10); (2, 20); (4, 40)] /\ size t = 3 /\
+    put t 3 33 = Ok t' /\ get t' 3 = Ok (Some 33) /\ size t' = 4 /\
+    traverse t' = Ok [(1, 10); (2, 20); (3, 33); (4, 40)] /\
+    height t' = height t /\ length (all_entries t') = 4%nat.
+Proof. do 6 eexists. vm_compute. repeat split. Qed.
